@@ -527,7 +527,8 @@ func init() {
 		// (kind idxbig; the extracted code evaluates only the layer-B expectation for these)
 		// quick: one 2.4 MB bucket -- the chunked read of Unmarshal (1 MiB, then doubling) grows its buffer
 		// twice, so both growth steps are exercised
-		bigs := []c11BigDesc{{c11BigBucket{0x12, 32, 60000}, c11BigBucket{0x11, 20, 500}, 40}}
+		// ... and more than 65 536 records in all (a batch size a Load / Flatten path might be tempted to use)
+		bigs := []c11BigDesc{{c11BigBucket{0x12, 32, 66000}, c11BigBucket{0x11, 20, 500}, 40}}
 		if c.Thorough {
 			bigs = append(bigs,
 				c11BigDesc{c11BigBucket{0x12, 32, 30000}, c11BigBucket{0x11, 20, 500}, 40},   // 1.2 MB bucket: one growth step
@@ -563,6 +564,33 @@ func init() {
 				in := VL{VN(codec), d.val(), sv, VB(trailer)}
 				c.Emit("idxbig", in, runIdxBigImpl(codec, d, samples, trailer, r.Bool()), true)
 				c.Count("records:bucket-above-1MiB")
+			}
+		}
+		// Load called twice on one sorted index (kind idxload2, correspondence only)
+		for a := 0; a < 60*c.Scale; a++ {
+			r := c.R.Fork()
+			rs1, _ := genRecordSet(r, pick(r, []int{0, 1, 2, 3, 5, 8}))
+			var rs2 []idxRec
+			switch r.Intn(3) {
+			case 0: // unrelated second batch
+				rs2, _ = genRecordSet(r, pick(r, []int{0, 1, 2, 4, 7}))
+			case 1: // same widths / codes: other offsets for some of the same CIDs
+				for _, x := range rs1 {
+					if r.Bool() {
+						rs2 = append(rs2, idxRec{x.C, genOffset(r)})
+					}
+				}
+			case 2: // one record of a width / code already present
+				if len(rs1) > 0 {
+					x := pick(r, rs1)
+					dm, _ := mh.Decode(x.C.Hash())
+					rs2 = []idxRec{{c11RawCid(0x55, dm.Code, r.Bytes(len(dm.Digest))), genOffset(r)}}
+				}
+			}
+			qs := genQueries(r, append(append([]idxRec(nil), rs1...), rs2...))
+			for _, codec := range []uint64{0x0400, 0x0401} {
+				c.Emit("idxload2", VL{VN(codec), recsVal(rs1), recsVal(rs2), cidsVal(qs)}, runIdxLoad2Impl(codec, rs1, rs2, qs), len(rs1) > 0 && len(rs2) > 0)
+				c.Count("load-twice")
 			}
 		}
 		// InsertionIndex.Marshal / Unmarshal (kinds iiser, iiread)
@@ -648,4 +676,27 @@ func c11InsertionCborCases(c *Ctx) {
 			}
 		}
 	}
+}
+
+func runIdxLoad2Impl(codec uint64, rs1, rs2 []idxRec, qs []cid.Cid) (obs Val) {
+	defer func() {
+		if r := recover(); r != nil {
+			obs = VL{VT("PANIC")}
+		}
+	}()
+	idx, err := newIndex(codec, rs1)
+	if err != nil {
+		return VL{VT("badcodec")}
+	}
+	if err := idx.Load(toRecords(rs2)); err != nil {
+		return VL{VT("loaderr")}
+	}
+	return VL{canonOf(idx), getAllsVal(idx, qs, true)}
+}
+
+func init() {
+	registerReplay("idxload2", func(c *Ctx, in Val) Val {
+		l := in.(VL)
+		return runIdxLoad2Impl(uint64(l[0].(VN)), c11RecsOfVal(l[1]), c11RecsOfVal(l[2]), cidsOfVal(l[3]))
+	})
 }
